@@ -50,8 +50,10 @@ impl<E> Record<E> {
     pub fn hash(&self) -> (r: u64) ensures r == self.spec_hash() { unimplemented!() }
     #[verifier::external_body]
     pub fn inc_refs(&self, v: usize) -> usize { unimplemented!() }
+    /// the handle count left after the (single) `dec_refs(1)` of the drop under contract (`entry_last_drop`)
+    pub uninterp spec fn refs_left_after_this_drop(&self) -> usize;
     #[verifier::external_body]
-    pub fn dec_refs(&self, v: usize) -> usize { unimplemented!() }
+    pub fn dec_refs(&self, v: usize) -> (r: usize) ensures v == 1 ==> r == self.refs_left_after_this_drop() { unimplemented!() }
     #[verifier::external_body]
     pub fn refs(&self) -> usize { unimplemented!() }
 }
@@ -858,7 +860,7 @@ pub struct ReleaseLogT<E: Eviction> { pub released: Ghost<Seq<Arc<Record<E>>>> }
 pub fn verif_release<E: Eviction>(shard: &mut ReleaseLogT<E>, record: &Arc<Record<E>>)
     ensures final(shard).released@ == old(shard).released@.push(*record),
 { }
-//@region foyer-memory/src/raw.rs :: impl~Drop for RawCacheEntry/fn drop name=entry_last_drop start=/if self\.record\.dec_refs\(1\) == 0 \{/ body=1 sub=@(?s)match E::release\(\) \{.*?\n            \}@verif_release(shard, &self.record);@
+//@region foyer-memory/src/raw.rs :: impl~Drop for RawCacheEntry/fn drop name=entry_last_drop whole=1 sub=@(?s)match E::release\(\) \{.*?\n            \}@verif_release(shard, &self.record);@ sub=@let shard = &self\.inner\.shards\[[^;]*\];@@
 //@head
 impl<E: Eviction> EntryT<E> {
     fn entry_last_drop(&mut self, shard: &mut ReleaseLogT<E>)
@@ -866,9 +868,13 @@ impl<E: Eviction> EntryT<E> {
             final(self).record == old(self).record,
             final(self).pipe.enabled == old(self).pipe.enabled,
             final(self).inner.event_listener.l.is_some() == old(self).inner.event_listener.l.is_some(),
-            old(self).record.spec_props().spec_phantom() == Some(true) && old(self).inner.event_listener.l.is_some() ==>
+            // only the drop of the LAST handle has any effect (C13: exactly one leave notification / hand-off per entry)
+            old(self).record.refs_left_after_this_drop() != 0 ==>
+                final(self).pipe.sent@ == old(self).pipe.sent@ && final(self).inner.event_listener.l == old(self).inner.event_listener.l
+                && final(shard).released@ == old(shard).released@, // @label drop_of_a_non_last_handle_has_no_effects
+            old(self).record.refs_left_after_this_drop() == 0 && old(self).record.spec_props().spec_phantom() == Some(true) && old(self).inner.event_listener.l.is_some() ==>
                 final(self).inner.event_listener.log() == old(self).inner.event_listener.log().push((Event::Evict, old(self).record.spec_key(), old(self).record.spec_value())), // @label phantom_last_drop_notifies_evict_once
-            old(self).record.spec_props().spec_phantom() == Some(true) && old(self).pipe.enabled ==>
+            old(self).record.refs_left_after_this_drop() == 0 && old(self).record.spec_props().spec_phantom() == Some(true) && old(self).pipe.enabled ==>
                 final(self).pipe.sent@ == old(self).pipe.sent@.push(old(self).record), // @label phantom_last_drop_piped_once
             old(self).record.spec_props().spec_phantom() == Some(true) && !old(self).pipe.enabled ==>
                 final(self).pipe.sent@ == old(self).pipe.sent@, // @label phantom_not_piped_when_disabled
@@ -877,7 +883,7 @@ impl<E: Eviction> EntryT<E> {
                 final(self).pipe.sent@ == old(self).pipe.sent@ && final(self).inner.event_listener.l == old(self).inner.event_listener.l, // @label ordinary_entry_drop_has_no_leave_effects
             // C18: whichever handle drops last (from an insert, a fetch or a lookup), the record is released to the
             // eviction container exactly once, so a pinned record becomes evictable again
-            old(self).record.spec_props().spec_phantom() != Some(true) ==>
+            old(self).record.refs_left_after_this_drop() == 0 && old(self).record.spec_props().spec_phantom() != Some(true) ==>
                 final(shard).released@ == old(shard).released@.push(old(self).record), // @label last_drop_of_any_handle_releases_the_record_once
 //@end
 }
